@@ -6,10 +6,6 @@
 //! (serde_json, serde_cbor) run differentially against a derived one-field
 //! struct `{ bits }` of the underlying integer.
 
-use crate::lay::{Elem, Lay};
-use serde::de::{self, DeserializeSeed, Deserializer, IntoDeserializer, MapAccess, SeqAccess, Visitor};
-use serde::ser::{self, Impossible, Serialize, SerializeStruct, Serializer};
-use std::fmt;
 
 #[derive(Clone, Debug, PartialEq, Eq)]
 pub enum Tok {
@@ -19,6 +15,84 @@ pub enum Tok {
     Int(u32, u128, bool),
     End,
 }
+
+
+/// substrate-fixed was built with its `serde` feature and the serde seam is simulated.
+pub const SERDE_ON: bool = cfg!(feature = "sf-serde");
+
+#[derive(Clone, Copy, Debug, PartialEq, Eq, PartialOrd, Ord, Hash)]
+pub enum Pres {
+    /// `visit_seq` with the integer delivered in its own width (bincode / postcard style)
+    Seq,
+    /// `visit_map`, key delivered as a borrowed-less `str`, integer in its own width
+    Map,
+    /// `visit_map`, integer delivered widened (u64/i64, or 128-bit when it does not fit) as JSON-like formats do
+    MapWidened,
+    /// `visit_seq`, widened integer
+    SeqWidened,
+}
+pub const PRESENTATIONS: [Pres; 4] = [Pres::Seq, Pres::Map, Pres::MapWidened, Pres::SeqWidened];
+
+#[derive(Clone, Copy, Debug, PartialEq, Eq, PartialOrd, Ord, Hash)]
+pub enum SerdeFault {
+    None,
+    /// the stream ends before the field: empty sequence / empty map
+    EndsEarly,
+    /// the access object reports a transport error instead of the element / key
+    AccessError,
+    /// the value after the key cannot be delivered (error from `next_value`)
+    ValueError,
+}
+pub const SERDE_FAULTS: [SerdeFault; 4] = [SerdeFault::None, SerdeFault::EndsEarly, SerdeFault::AccessError, SerdeFault::ValueError];
+
+#[derive(Clone, Copy)]
+pub struct SerdeOps {
+    /// tokens emitted by the real Serialize impl (plain, Wrapping)
+    pub ser: fn(u128, bool) -> Result<Vec<Tok>, String>,
+    /// drive the real Deserialize impl from a simulated token stream
+    pub de: fn(u128, bool, Pres, SerdeFault) -> (Result<u128, String>, Option<(String, Vec<String>)>),
+    pub json: fn(u128, bool) -> Result<String, String>,
+    pub json_twin: fn(u128) -> Result<String, String>,
+    pub unjson: fn(&str, bool) -> Result<u128, String>,
+    pub unjson_twin: fn(&str) -> Result<u128, String>,
+    pub cbor: fn(u128, bool) -> Result<Vec<u8>, String>,
+    pub cbor_twin: fn(u128) -> Result<Vec<u8>, String>,
+    pub uncbor: fn(&[u8], bool) -> Result<u128, String>,
+    pub uncbor_twin: fn(&[u8]) -> Result<u128, String>,
+}
+
+#[cfg(feature = "sf-serde")]
+pub use real::serde_ops;
+#[cfg(feature = "sf-serde")]
+pub use real::*;
+
+/// Without the `serde` feature there is no serde seam; the entry points exist but are never called.
+#[cfg(not(feature = "sf-serde"))]
+pub fn serde_ops<T: crate::lay::Lay>() -> SerdeOps {
+    fn off<A>() -> Result<A, String> {
+        Err("substrate-fixed built without its serde feature".into())
+    }
+    SerdeOps {
+        ser: |_, _| off(),
+        de: |_, _, _, _| (off(), None),
+        json: |_, _| off(),
+        json_twin: |_| off(),
+        unjson: |_, _| off(),
+        unjson_twin: |_| off(),
+        cbor: |_, _| off(),
+        cbor_twin: |_| off(),
+        uncbor: |_, _| off(),
+        uncbor_twin: |_| off(),
+    }
+}
+
+#[cfg(feature = "sf-serde")]
+mod real {
+use super::*;
+use crate::lay::{Elem, LaySerde as Lay};
+use serde::de::{self, DeserializeSeed, Deserializer, IntoDeserializer, MapAccess, SeqAccess, Visitor};
+use serde::ser::{self, Impossible, Serialize, SerializeStruct, Serializer};
+use std::fmt;
 
 #[derive(Debug)]
 pub struct TokErr(pub String);
@@ -126,30 +200,7 @@ impl<'a> SerializeStruct for TokSerStruct<'a> {
 
 // ------------------------------------------------------------------ deserializer
 
-#[derive(Clone, Copy, Debug, PartialEq, Eq, PartialOrd, Ord, Hash)]
-pub enum Pres {
-    /// `visit_seq` with the integer delivered in its own width (bincode / postcard style)
-    Seq,
-    /// `visit_map`, key delivered as a borrowed-less `str`, integer in its own width
-    Map,
-    /// `visit_map`, integer delivered widened (u64/i64, or 128-bit when it does not fit) as JSON-like formats do
-    MapWidened,
-    /// `visit_seq`, widened integer
-    SeqWidened,
-}
-pub const PRESENTATIONS: [Pres; 4] = [Pres::Seq, Pres::Map, Pres::MapWidened, Pres::SeqWidened];
 
-#[derive(Clone, Copy, Debug, PartialEq, Eq, PartialOrd, Ord, Hash)]
-pub enum SerdeFault {
-    None,
-    /// the stream ends before the field: empty sequence / empty map
-    EndsEarly,
-    /// the access object reports a transport error instead of the element / key
-    AccessError,
-    /// the value after the key cannot be delivered (error from `next_value`)
-    ValueError,
-}
-pub const SERDE_FAULTS: [SerdeFault; 4] = [SerdeFault::None, SerdeFault::EndsEarly, SerdeFault::AccessError, SerdeFault::ValueError];
 
 pub struct TokDe {
     pub pres: Pres,
@@ -297,21 +348,6 @@ impl<'de, T: Lay> serde::Deserialize<'de> for W<T> {
 
 // ------------------------------------------------------------------ per-layout entry points
 
-#[derive(Clone, Copy)]
-pub struct SerdeOps {
-    /// tokens emitted by the real Serialize impl (plain, Wrapping)
-    pub ser: fn(u128, bool) -> Result<Vec<Tok>, String>,
-    /// drive the real Deserialize impl from a simulated token stream
-    pub de: fn(u128, bool, Pres, SerdeFault) -> (Result<u128, String>, Option<(String, Vec<String>)>),
-    pub json: fn(u128, bool) -> Result<String, String>,
-    pub json_twin: fn(u128) -> Result<String, String>,
-    pub unjson: fn(&str, bool) -> Result<u128, String>,
-    pub unjson_twin: fn(&str) -> Result<u128, String>,
-    pub cbor: fn(u128, bool) -> Result<Vec<u8>, String>,
-    pub cbor_twin: fn(u128) -> Result<Vec<u8>, String>,
-    pub uncbor: fn(&[u8], bool) -> Result<u128, String>,
-    pub uncbor_twin: fn(&[u8]) -> Result<u128, String>,
-}
 
 fn ser<T: Lay>(bits: u128, wrapping: bool) -> Result<Vec<Tok>, String> {
     let mut toks = Vec::new();
@@ -333,7 +369,7 @@ fn json<T: Lay>(bits: u128, wrapping: bool) -> Result<String, String> {
     if wrapping { serde_json::to_string(&W(v)) } else { serde_json::to_string(&v) }.map_err(|e| e.to_string())
 }
 fn json_twin<T: Lay>(bits: u128) -> Result<String, String> {
-    serde_json::to_string(&Twin { bits: <T::Int as Elem>::fb(bits) }).map_err(|e| e.to_string())
+    serde_json::to_string(&Twin { bits: <T::SInt as Elem>::fb(bits) }).map_err(|e| e.to_string())
 }
 fn unjson<T: Lay>(s: &str, wrapping: bool) -> Result<u128, String> {
     if wrapping {
@@ -344,14 +380,14 @@ fn unjson<T: Lay>(s: &str, wrapping: bool) -> Result<u128, String> {
     .map_err(|e| e.to_string())
 }
 fn unjson_twin<T: Lay>(s: &str) -> Result<u128, String> {
-    serde_json::from_str::<Twin<T::Int>>(s).map(|t| t.bits.tb()).map_err(|e| e.to_string())
+    serde_json::from_str::<Twin<T::SInt>>(s).map(|t| t.bits.tb()).map_err(|e| e.to_string())
 }
 fn cbor<T: Lay>(bits: u128, wrapping: bool) -> Result<Vec<u8>, String> {
     let v = T::fb(bits);
     if wrapping { serde_cbor::to_vec(&W(v)) } else { serde_cbor::to_vec(&v) }.map_err(|e| e.to_string())
 }
 fn cbor_twin<T: Lay>(bits: u128) -> Result<Vec<u8>, String> {
-    serde_cbor::to_vec(&Twin { bits: <T::Int as Elem>::fb(bits) }).map_err(|e| e.to_string())
+    serde_cbor::to_vec(&Twin { bits: <T::SInt as Elem>::fb(bits) }).map_err(|e| e.to_string())
 }
 fn uncbor<T: Lay>(b: &[u8], wrapping: bool) -> Result<u128, String> {
     if wrapping {
@@ -362,7 +398,7 @@ fn uncbor<T: Lay>(b: &[u8], wrapping: bool) -> Result<u128, String> {
     .map_err(|e| e.to_string())
 }
 fn uncbor_twin<T: Lay>(b: &[u8]) -> Result<u128, String> {
-    serde_cbor::from_slice::<Twin<T::Int>>(b).map(|t| t.bits.tb()).map_err(|e| e.to_string())
+    serde_cbor::from_slice::<Twin<T::SInt>>(b).map(|t| t.bits.tb()).map_err(|e| e.to_string())
 }
 
 pub fn serde_ops<T: Lay>() -> SerdeOps {
@@ -378,4 +414,6 @@ pub fn serde_ops<T: Lay>() -> SerdeOps {
         uncbor: uncbor::<T>,
         uncbor_twin: uncbor_twin::<T>,
     }
+}
+
 }
